@@ -126,7 +126,8 @@ func ruleSizeCheck(c *Ctx) {
 		if f.Pkg != c.P.Main {
 			continue
 		}
-		sym := func(v ssa.Value) string {
+		var symD func(v ssa.Value, d int) string
+		symD = func(v ssa.Value, d int) string {
 			v = resolve1(v)
 			if call, ok := v.(*ssa.Call); ok && calleeIs(&call.Call, modPath, "Entry", "Size") {
 				return "SIZE"
@@ -134,8 +135,23 @@ func ruleSizeCheck(c *Ctx) {
 			if isFieldLoad(v, "Options", "SegmentSize") || paramBoundToField(c, v, "Options", "SegmentSize") {
 				return "SEG"
 			}
+			// a parameter of an unexported helper that every caller binds to an entry's encoded size
+			if prm, ok := resolve1(stripConv(v)).(*ssa.Parameter); ok && d < 2 && (prm.Parent().Object() == nil || !prm.Parent().Object().Exported()) {
+				idx := paramIndex(prm.Parent(), prm)
+				sites := c.P.CallersOf(prm.Parent())
+				all := len(sites) > 0
+				for _, st := range sites {
+					if st.Common().IsInvoke() || idx >= len(st.Common().Args) || symD(stripConv(st.Common().Args[idx]), d+1) != "SIZE" {
+						all = false
+					}
+				}
+				if all {
+					return "SIZE"
+				}
+			}
 			return pathOf(v)
 		}
+		sym := func(v ssa.Value) string { return symD(v, 0) }
 		k := 0
 		instrs(f, func(in ssa.Instruction) {
 			b, ok := in.(*ssa.BinOp)
@@ -148,6 +164,24 @@ func ruleSizeCheck(c *Ctx) {
 				return
 			}
 			d := linAdd(linOf(b.X, sym), linOf(b.Y, sym), -1)
+			if d.terms["SEG"] != 0 && d.terms["SIZE"] == 0 {
+				// something else is compared with the segment size: only the file's own counters may be
+				foreign := ""
+				for t, cf := range d.terms {
+					if cf == 0 || t == "SEG" || strings.HasSuffix(t, ".ActualSize") || strings.HasSuffix(t, ".writeOff") || strings.HasSuffix(t, "off") {
+						continue
+					}
+					foreign = t
+				}
+				if foreign != "" && !strings.Contains(foreign, "len(") {
+					n++
+					k++
+					c.touch(f)
+					c.bad(fnName(f), fmt.Sprintf("size test #%d compares the full encoded entry size with the segment size", k), c.P.ipos(b),
+						"a quantity that is not Entry.Size() ("+foreign+") is what is compared with Options.SegmentSize ("+d.String()+"): whether a record fits its segment is decided on something other than its encoded size (header + bucket + key + value), so a record that does not fit can be accepted; under MMap its tail is cut off at the end of the mapping")
+				}
+				return
+			}
 			if d.terms["SIZE"] == 0 || d.terms["SEG"] == 0 {
 				return
 			}
